@@ -332,7 +332,7 @@ def repair_case(case, ctx):
             keep.append(e)
         spec["edges"] = keep
         case.setdefault("_repaired", []).append("F-01c")
-    if "F-09b" in active and "spec" in case and same_pair_connected_twice_with_delay(case):
+    if "F-09b" in active and "spec" in case and same_pair_connected_twice_from_a_buffered_source(case):
         if not copied:
             case = copy.deepcopy(case)
         spec = case["spec"]
@@ -395,14 +395,21 @@ def _delayed(e):
 
 
 @predicate("F-09b")
-def same_pair_connected_twice_with_delay(case):
-    """>=2 edges between the same source variable and the same target variable of which at least one is delayed"""
+def same_pair_connected_twice_from_a_buffered_source(case):
+    """>=2 edges between the same source variable and the same target variable while the source variable (of the IR
+    node: vectorisation merges units) has at least one delayed edge, so that all its edges go through the delay
+    buffer"""
     spec = case["spec"]
     vec = bool(case.get("cfg", {}).get("vectorize"))
-    pairs = {}
+    pairs, buffered = {}, set()
     for s, t, e in _abs_edges(spec):
         pairs.setdefault((s, t), []).append(e)
-    return any(len(v) >= 2 and any(_delayed(e) for e in v) for v in pairs.values())
+        if _delayed(e):
+            buffered.add((_merged_node_key(spec, _node(s), vec), _opk(spec, s, vec), _var(s)))
+    for (s, t), v in pairs.items():
+        if len(v) >= 2 and (_merged_node_key(spec, _node(s), vec), _opk(spec, s, vec), _var(s)) in buffered:
+            return True
+    return False
 
 
 @predicate("F-09e")
